@@ -86,11 +86,32 @@ def still_fails(st, lines, kind, key):
         return False
     last = steps[-1]
     if kind == "divergence":
-        return bool(project(last, st.fields))
+        # the same divergence, not just any: same fields, same outcome class on both sides (a shrunk sequence that diverges for
+        # another reason — e.g. because a set-up line went missing — is not a witness of this failure)
+        return divergence_signature(last, st.fields) == key if isinstance(key, tuple) else bool(project(last, st.fields))
     if kind == "oracle" and st.oracle:
         fails = st.oracle(steps)
         return any(i == len(steps) - 1 and classify(m) == key for i, m in fails)
     return False
+
+
+def divergence_signature(step, fields):
+    d = tuple(project(step, fields))
+    if not d:
+        return None
+    cls = lambda m: (m.get("ack") or m.get("res") or m.get("_", "")[:12])
+    return (d, cls(step.impl), cls(step.model))
+
+
+def signature_of_finding(f):
+    """the divergence signature of a recorded finding (recomputed from its raw outputs)"""
+    try:
+        st = f._st
+        s = engine.Step(f.index, f.lines[f.index], f.impl, f.model)
+        engine.compare(s)
+        return divergence_signature(s, st.fields)
+    except Exception:
+        return None
 
 
 def classify(msg):
@@ -110,7 +131,8 @@ def shrink(st, lines, idx, kind, key, budget=40):
     tries = 0
     i = len(cur) - 2
     while i >= 0 and tries < budget:
-        if cur[i].startswith("setup"):
+        if cur[i].startswith(("setup", "env ", "escrowfund", "swapctl", "drybegin", "dryend", "genload")):
+            # the environment both sides were put in stays: removing such a line desynchronises the two drivers
             i -= 1
             continue
         cand = cur[:i] + cur[i + 1:]
